@@ -15,7 +15,7 @@ MCLines == { L("k", <<97, 98>>, 0, 0, 0),          \* "ab"
              L("k", <<49>>, 0, 0, 0),              \* "1"
              L("k", <<233>>, 0, 0, 0),             \* "é"
              L("k", <<97>>, 0, 0, 1),              \* "a #1"
-             L("blank", <<>>, 0, 0, 0), L("ws", <<>>, 2, 0, 0) }
+             L("blank", <<>>, 0, 0, 0), L("ws", <<>>, 2, 0, 0), L("uws", <<>>, 2, 0, 0) }
 
 MCConfigs == { [kind |-> "pattern", dir |-> "asc", sp |-> "", pat |-> "none", fmt |-> "lex",
                 lp |-> p, op |-> "==", n |-> 0] : p \in {"lower", "digit", "startx", "min3", "lower0", "optx"} }
